@@ -55,7 +55,7 @@ ASSUMPTIONS = [
 ]
 BUDGET = {
     "quick": dict(cases=324, shards=4, timeout=600),
-    "thorough": dict(cases=1512, shards=16, timeout=3000),
+    "thorough": dict(cases=6048, shards=16, timeout=3000),
 }
 SCHEDULE = [
     "fixed_lens", "fixed_nolens", "ali_padded", "ali_full", "ref_bounded", "ref_unbounded",
